@@ -55,7 +55,7 @@ PAIRS = [("sqlite", "duckdb"), ("duckdb", "sqlite"), ("sqlite", "sqlite"), ("duc
 # families below is plain SQL DuckDB runs as is.  Only families where name resolution cannot differ between MySQL and
 # DuckDB are used (no select-list alias is referenced at query level).
 EMULATED_PAIRS = [("sqlite", "mysql"), ("duckdb", "mysql")]
-EMULATED_FAMILIES = {"order-top", "order-limit", "order-two", "order-window", "order-window-shadow", "order-group", "order-join"}
+EMULATED_FAMILIES = {"order-top", "order-limit", "order-two", "order-window", "order-window-shadow", "order-group", "order-join", "distinct-on", "qualify"}
 
 T_COLS = "id INTEGER, a INTEGER, b INTEGER, s {text}, d {ts}"
 U_COLS = "id INTEGER, a INTEGER, c {text}"
@@ -292,6 +292,15 @@ def struct_queries():
     ]):
         # the first 13 are the DuckDB-side constructs the property names (QUALIFY, DISTINCT ON, SEMI / ANTI joins)
         out.append(Q("duckdb-side" if i < 13 else "duckdb-extra", H(q), {"sqlite": None, "duckdb": q}, False))
+    # DISTINCT ON keeps the first row of each group in ORDER BY order: the NULL placement of every sort key decides which
+    for (d1, dt1), (n1, nt1), (d2, dt2), (n2, nt2) in itertools.product(DIRS[::2], NULLS, DIRS[::2], NULLS):
+        tag = f"{dt1}.{nt1}.{dt2}.{nt2}"
+        out.append(Q("distinct-on", "alias-is-column." + tag, {"sqlite": None, "duckdb": f"SELECT DISTINCT ON (t.b) t.b AS b, t.a AS a, t.id AS id FROM t ORDER BY b{d1}{n1}, a{d2}{n2}, id"}, False))
+        out.append(Q("distinct-on", "plain." + tag, {"sqlite": None, "duckdb": f"SELECT DISTINCT ON (b) id, a, b FROM t ORDER BY b{d1}{n1}, a{d2}{n2}, id"}, False))
+        out.append(Q("distinct-on", "qualified." + tag, {"sqlite": None, "duckdb": f"SELECT DISTINCT ON (t.b) t.id, t.a FROM t ORDER BY t.b{d1}{n1}, t.a{d2}{n2}, t.id"}, False))
+        out.append(Q("distinct-on", "expression." + tag, {"sqlite": None, "duckdb": f"SELECT DISTINCT ON (b) id, a + 1 AS k FROM t ORDER BY b{d1}{n1}, a + 1{d2}{n2}, id"}, False))
+        out.append(Q("distinct-on", "join." + tag, {"sqlite": None, "duckdb": f"SELECT DISTINCT ON (t.b) t.id, u.c AS c FROM t LEFT JOIN u ON t.a = u.a ORDER BY t.b{d1}{n1}, c{d2}{n2}, t.id, u.id"}, False))
+        out.append(Q("qualify", "rownum." + tag, {"sqlite": None, "duckdb": f"SELECT id, a FROM t QUALIFY ROW_NUMBER() OVER (PARTITION BY b ORDER BY a{d1}{n1}, s{d2}{n2}, id) = 1"}, False))
     for i, q in enumerate([
         "SELECT id, SUM(a) OVER (ORDER BY id ROWS BETWEEN UNBOUNDED PRECEDING AND CURRENT ROW) FROM t", "SELECT id, LEAD(a, 1, -1) OVER (ORDER BY id) FROM t", "SELECT id, NTILE(2) OVER (ORDER BY id) FROM t",
         "SELECT id, COUNT(a) OVER (PARTITION BY b), MAX(a) OVER (PARTITION BY b ORDER BY id) FROM t", "SELECT id, SUM(a) OVER (ORDER BY b) FROM t", "SELECT id, SUM(a) OVER (ORDER BY b RANGE BETWEEN 1 PRECEDING AND CURRENT ROW) FROM t",
